@@ -19,10 +19,14 @@ package util
 //@   pure
 //@   ensures result == crcupd(c, b)
 
+// (callers see the masked value only as crcmask(c), an uninterpreted bijection: assumed. What the code computes is
+// checked against LevelDB's mask itself - rotate right by 15 bits and add 0xa282ead8 - so that a slip in the rotation
+// or the constant, which would let damaged bytes pass the checksum comparison, is not hidden behind the assumption.)
 //@ func (CRC).Value
-//@   trusted
 //@   pure
-//@   ensures result == crcmask(c)
+//@   mode bv
+//@   assumes result == crcmask(c)
+//@   ensures [the-mask-rotates-right-by-15-bits-and-adds-the-delta] result == ((uint32(c) >> 15) | (uint32(c) << 17)) + 0xa282ead8
 
 // util.Hash is the definition of the extern spec function hashfn (it reads only its arguments).
 //@ spec func hashfn(b bytes, seed uint32) uint32 = extern util.Hash
